@@ -85,8 +85,15 @@ def select__child_axis(self: XPathAxis, context: ta.ContextType = None) \
     if context is None:
         raise self.missing_context()
     else:
-        for _ in context.iter_children_or_self():
-            yield from self[0].select(context)
+        for item in context.iter_children_or_self():
+            if context.item is item:
+                yield from self[0].select(context)
+            else:
+                # the root element as the child of a dummy document: the focus has to move on it
+                status = context.item
+                context.item = item
+                yield from self[0].select(context)
+                context.item = status
 
 
 @method(axis('parent', reverse_axis=True))
